@@ -53,12 +53,13 @@ type Finding struct {
 
 // Run is the state of one check execution.
 type Run struct {
-	ID     string
-	Tier   string
-	Seed   int
-	Level  string
-	start  time.Time
-	budget time.Duration
+	ID      string
+	Tier    string
+	Seed    int
+	Level   string
+	start   time.Time
+	budget  time.Duration
+	aborted atomic.Bool
 
 	mu        sync.Mutex
 	known     map[string]*Finding // open findings of this property by key
@@ -128,7 +129,11 @@ func Pick[T any](r *Run, q, t T) T {
 
 // Expired reports whether the internal budget is used up. Checks stop scheduling
 // new work, record a cap and finish with exhaustive=false.
-func (r *Run) Expired() bool { return time.Since(r.start) > r.budget }
+func (r *Run) Expired() bool { return r.aborted.Load() || time.Since(r.start) > r.budget }
+
+// Abort makes Expired true from now on: used after a violation that leaves a runaway goroutine
+// behind (non-termination), so that no further work is scheduled next to it.
+func (r *Run) Abort() { r.aborted.Store(true) }
 
 // Elapsed since Start.
 func (r *Run) Elapsed() time.Duration { return time.Since(r.start) }
